@@ -171,3 +171,51 @@ Proof.
   intros E. unfold unpack. rewrite E. unfold fetch_is_ok. rewrite fs_get_put.
   destruct (path_eqb_spec [prefix; MARKER] [prefix; MARKER]); [reflexivity|congruence].
 Qed.
+
+(* ---- the accepted tree is the archive, exactly ---- *)
+(* an entry that puts a file into the tree *)
+Definition unpackable (e : entry) : bool :=
+  negb (UNPACK_SKIPS_LINK_ENTRIES && is_link_entry e) && negb (UNPACK_SKIPS_MARKER_ENTRIES && is_marker_entry e) &&
+  negb (has_parent (en_path e)) && match en_kind e with EFile => true | _ => false end.
+(* what the archive says about path q: the content of the last file entry unpacked there *)
+Definition last_write (q : fpath) (acc : option N) (e : entry) : option N :=
+  if unpackable e && path_eqb (normals (en_path e)) q then Some (en_content e) else acc.
+Definition archive_says (ar : archive) (q : fpath) : option N := fold_left (last_write q) ar None.
+
+Lemma fold_failed prefix ar f : fold_left (unpack_step prefix) ar (f, Failed) = (f, Failed).
+Proof. induction ar as [|e ar IH]; cbn [fold_left]; [reflexivity|exact IH]. Qed.
+
+Lemma step_running prefix f e f' q :
+  unpack_step prefix (f, Running) e = (f', Running) -> fs_get f' q = last_write q (fs_get f q) e.
+Proof.
+  unfold unpack_step, last_write, unpackable. cbn [fst snd].
+  destruct (entry_ok prefix e); cbn [negb]; [|discriminate].
+  destruct (UNPACK_SKIPS_LINK_ENTRIES && is_link_entry e); cbn [negb andb]; [intros E; inversion E; reflexivity|].
+  destruct (UNPACK_SKIPS_MARKER_ENTRIES && is_marker_entry e); cbn [negb andb]; [intros E; inversion E; reflexivity|].
+  destruct (has_parent (en_path e)); cbn [negb andb]; [intros E; inversion E; reflexivity|].
+  destruct (en_kind e); intros E; inversion E; subst; cbn [andb]; try reflexivity.
+  rewrite fs_get_put. reflexivity.
+Qed.
+
+Lemma fold_running prefix ar : forall f f1 q,
+  fold_left (unpack_step prefix) ar (f, Running) = (f1, Running) ->
+  fs_get f1 q = fold_left (last_write q) ar (fs_get f q).
+Proof.
+  induction ar as [|e ar IH]; intros f f1 q E; cbn [fold_left] in *; [inversion E; reflexivity|].
+  destruct (unpack_step prefix (f, Running) e) as [f' s'] eqn:S. destruct s'.
+  - rewrite (IH f' f1 q E). rewrite (step_running prefix f e f' q S). reflexivity.
+  - rewrite fold_failed in E. discriminate.
+Qed.
+
+(* a directory that is handed out (the unpack ran to its end) holds, below the crate's own
+   directory, exactly what the archive says: for every path the content of the last regular-file
+   entry unpacked there, nothing that was in the directory before, nothing missing *)
+Theorem accepted_tree_is_the_archive prefix ar f f1 q :
+  fold_left (unpack_step prefix) ar (fs_remove_dir f prefix, Running) = (f1, Running) ->
+  under prefix q = true -> q <> [prefix; MARKER] ->
+  fs_get (unpack prefix ar None f) q = archive_says ar q.
+Proof.
+  intros E Hu Hq. unfold unpack. rewrite E. rewrite fs_get_put.
+  destruct (path_eqb_spec [prefix; MARKER] q) as [<-|_]; [congruence|].
+  rewrite (fold_running prefix ar _ f1 q E). rewrite fs_get_remove_under by exact Hu. reflexivity.
+Qed.
